@@ -22,9 +22,9 @@ def suites(tier):
     else:
         nmax, mmax = 5, 3
     for cfg in product(algo=[1, 2], cs=[0, 1], fwd=[0, 1], pos=[0, 1], rep=[0], slab=[0]):
-        cfg.update(norm=0, pk=0, scheme=0, nmin=0, nmax=nmax, mmin=1, mmax=mmax, slabmax16=0, slabmax32=0)
+        cfg.update(norm=0, pk=0, scheme=0, nmin=0, nmax=nmax, mmin=1, mmax=mmax, c16=0, c32=0)
         jobs.append(dict(id=jid("fuzzy", cfg), func="zzH_C02_fuzzy", cfg=cfg))
     for cfg in product(kind=[0, 1, 2, 3, 4], cs=[0, 1], fwd=[0, 1], rep=[0]):
-        cfg.update(norm=0, pos=0, slab=0, pk=0, scheme=0, nmin=0, nmax=nmax + 1, mmin=1, mmax=mmax, slabmax16=0, slabmax32=0)
+        cfg.update(norm=0, pos=0, slab=0, pk=0, scheme=0, nmin=0, nmax=nmax + 1, mmin=1, mmax=mmax, c16=0, c32=0)
         jobs.append(dict(id=jid("exact", cfg), func="zzH_C02_exact", cfg=cfg))
     return [dict(ALGO, name="algo", jobs=jobs)]
